@@ -225,8 +225,55 @@ def await_only_cycles(body):
 # by remembering, along a path, which enum variant a local was last *constructed* with and
 # following only the matching arm of a later `switch discriminant(local)`.
 
+def _opdesc(op):
+    """('place', local, steps) for a move/copy operand whose projections are field / variant-field steps"""
+    p = op.get("move") or op.get("copy") if isinstance(op, dict) else None
+    if p is None:
+        return None
+    return _placedesc(p)
+
+
+def _placedesc(p):
+    steps = []
+    elems = p["p"]
+    i = 0
+    while i < len(elems):
+        e = elems[i]
+        if isinstance(e, dict) and "downcast" in e and i + 1 < len(elems) and isinstance(elems[i + 1], dict) and "f" in elems[i + 1]:
+            steps.append(("v", e["downcast"], elems[i + 1]["f"]))
+            i += 2
+        elif isinstance(e, dict) and "f" in e and "downcast" not in e:
+            steps.append(("f", e["f"]))
+            i += 1
+        else:
+            return None   # deref / index: not tracked
+    return ("place", p["l"], tuple(steps))
+
+
+def _mut_borrowed(body):
+    """locals whose address is taken mutably (their value can change behind the tracker's back)"""
+    c = getattr(body, "_mutb", None)
+    if c is None:
+        c = set()
+        for blk in body.blocks:
+            for st in blk["stmts"]:
+                if st["k"] == "assign" and st["rv"]["k"] in ("ref", "rawptr") and (st["rv"].get("mut") or st["rv"]["k"] == "rawptr"):
+                    pl = st["rv"]["place"]
+                    if "*" not in pl["p"]:
+                        c.add(pl["l"])
+        body._mutb = c
+    return c
+
+
 def _block_effects(body, bb):
-    """list of (local, variant_idx|None|('copy', src)) in statement order; None = unknown"""
+    """list of (local, effect) in statement order; effect is None (unknown), ('agg', variant, [opdesc..]),
+    ('place', local, steps) (copy of a tracked sub-value), ('branch', local, kind) or ('clobber',) (a
+    field was written: the variant stays, the payload shapes are forgotten)"""
+    c = body._eff.get(bb) if hasattr(body, "_eff") else None
+    if c is not None:
+        return c
+    if not hasattr(body, "_eff"):
+        body._eff = {}
     eff = []
     blk = body.blocks[bb]
     for st in blk["stmts"]:
@@ -235,18 +282,16 @@ def _block_effects(body, bb):
             continue
         dst = st["dst"]
         if dst["p"]:
-            # writing a field of an enum local does not change its variant; deref writes unknown
+            if "*" not in dst["p"]:
+                eff.append((dst["l"], ("clobber",)))
             continue
         rv = st["rv"]
         if rv["k"] == "agg" and rv.get("agg") == "adt" and "variant_idx" in rv:
-            eff.append((dst["l"], rv["variant_idx"]))
+            eff.append((dst["l"], ("agg", rv["variant_idx"], [_opdesc(o) for o in rv["ops"]])))
+        elif rv["k"] == "agg" and rv.get("agg") == "tuple":
+            eff.append((dst["l"], ("agg", 0, [_opdesc(o) for o in rv["ops"]])))
         elif rv["k"] == "use":
-            op = rv["op"]
-            p = op.get("move") or op.get("copy")
-            if p is not None and not p["p"]:
-                eff.append((dst["l"], ("copy", p["l"])))
-            else:
-                eff.append((dst["l"], None))
+            eff.append((dst["l"], _opdesc(rv["op"])))
         else:
             eff.append((dst["l"], None))
     t = blk["term"]
@@ -267,11 +312,32 @@ def _block_effects(body, bb):
                     elif ty.startswith(("std::option::Option<", "core::option::Option<")):
                         src = ("branch", p["l"], "option")
             eff.append((d["l"], src))
+        elif "*" not in d["p"]:
+            eff.append((d["l"], ("clobber",)))
+    body._eff[bb] = eff
     return eff
 
 
+def _shape_at(d, desc):
+    """shape of the tracked value described by ('place', local, steps) in state d, or None"""
+    if desc is None:
+        return None
+    sh = d.get(desc[1])
+    for stp in desc[2]:
+        if sh is None:
+            return None
+        if stp[0] == "v":
+            if sh[0] != stp[1]:
+                return None
+            k = stp[2]
+        else:
+            k = stp[1]
+        sh = sh[1][k] if k < len(sh[1]) else None
+    return sh
+
+
 def _switch_subject(body, bb):
-    """(local, {value: target}, otherwise) when the block ends in `switch discriminant(local)`"""
+    """(place descriptor, {value: target}, otherwise) when the block ends in `switch discriminant(place)`"""
     t = body.blocks[bb]["term"]
     if t["k"] != "switch":
         return None
@@ -282,14 +348,18 @@ def _switch_subject(body, bb):
     # the discriminant read is normally in the same block
     for st in reversed(body.blocks[bb]["stmts"]):
         if st["k"] == "assign" and st["dst"]["l"] == p["l"] and not st["dst"]["p"]:
-            if st["rv"]["k"] == "discr" and not st["rv"]["place"]["p"]:
-                return (st["rv"]["place"]["l"], {v: tg for v, tg in t["arms"]}, t["otherwise"])
+            if st["rv"]["k"] == "discr":
+                desc = _placedesc(st["rv"]["place"])
+                if desc is not None:
+                    return (desc, {v: tg for v, tg in t["arms"]}, t["otherwise"])
             return None
     return None
 
 
 def explore(body, start, avoid=(), goals=None, state=None, limit=200000):
-    """Variant-tracking forward exploration from block `start` (its statements are executed).
+    """Variant-tracking forward exploration from block `start` (its statements are executed). The state maps
+    a local to the shape of the enum / tuple value it holds: (variant index, (payload shapes..)), built from
+    aggregates, copied through moves and field / payload projections, and through `?`.
     Returns (reached_blocks, witness_path_to_goal_or_None)."""
     avoid = set(avoid)
     goals = set(goals or ())
@@ -298,6 +368,7 @@ def explore(body, start, avoid=(), goals=None, state=None, limit=200000):
     reached = set()
     stack = [(start, init, None)]
     parents = {}
+    untracked = _mut_borrowed(body)
     n = 0
     while stack:
         bb, st, par = stack.pop()
@@ -322,26 +393,35 @@ def explore(body, start, avoid=(), goals=None, state=None, limit=200000):
             return reached, out[::-1]
         d = dict(st)
         for (l, v) in _block_effects(body, bb):
-            if v is None:
+            if v is None or l in untracked:
                 d.pop(l, None)
-            elif isinstance(v, tuple) and v[0] == "branch":
-                if v[1] in d:
-                    sv = d[v[1]]
-                    d[l] = (0 if sv == 0 else 1) if v[2] == "result" else (1 if sv == 0 else 0)
+            elif v[0] == "clobber":
+                if l in d:
+                    d[l] = (d[l][0], ())
+            elif v[0] == "branch":
+                sv = d.get(v[1])
+                if sv is not None:
+                    payload = sv[1][0] if sv[1] else None
+                    if v[2] == "result":
+                        d[l] = (0, (payload,)) if sv[0] == 0 else (1, ((1, (payload,)),))
+                    else:
+                        d[l] = (0, (payload,)) if sv[0] == 1 else (1, ((0, ()),))
                 else:
                     d.pop(l, None)
-            elif isinstance(v, tuple):
-                if v[1] in d:
-                    d[l] = d[v[1]]
+            elif v[0] == "place":
+                sh = _shape_at(d, v)
+                if sh is not None:
+                    d[l] = sh
                 else:
                     d.pop(l, None)
-            else:
-                d[l] = v
+            elif v[0] == "agg":
+                d[l] = (v[1], tuple(_shape_at(d, o) for o in v[2]))
         succs = body.succ[bb]
         sw = _switch_subject(body, bb)
-        if sw is not None and sw[0] in d:
-            val = d[sw[0]]
-            succs = [sw[1].get(val, sw[2])]
+        if sw is not None:
+            sh = _shape_at(d, sw[0])
+            if sh is not None:
+                succs = [sw[1].get(sh[0], sw[2])]
         nst = tuple(sorted(d.items()))
         for s in succs:
             stack.append((s, nst, key))
